@@ -250,7 +250,44 @@ pub fn step_market_admin<const N: usize, const L: usize>(m: usize, cfg: GenCfg) 
     vcheck!(ba[0] == (0, Price::MAX) && ba[1] == (0, Price::MAX) && fresh.verif_book(0).verif_n_orders() == 0 && fresh.verif_book(1).verif_n_orders() == 0, "MARKET.new_books_empty");
 }
 
+/// save -> load of a whole market through the derived implementations (incl. the `serde_as` array
+/// adapter) over the token tape: every asset's book comes back in its own slot, equal to the saved one
+pub fn market_serde_roundtrip<const N: usize, const L: usize>(m: usize) {
+    use crate::orderbook::verif_proofs::tape;
+    use serde::{Deserialize, Serialize};
+    let p0: Plain<N> = gen_plain::<N>(m, CFG);
+    let mut p1: Plain<N> = gen_plain::<N>(m, GenCfg { tick: 3, ..CFG });
+    p1.t = p0.t;
+    p1.trading = p0.trading;
+    let market: Market<2, L> = Market::verif_from_books([build::<N, L>(&p0, 0), build::<N, L>(&p1, 0)]);
+    let mut t = tape::Tape::new();
+    let saved = market.serialize(&mut tape::W(&mut t)).is_ok();
+    vcheck!(saved && !t.overflow, "SNAPSHOT.saving_succeeds");
+    let mut r = tape::R::new(&t);
+    match Market::<2, L>::deserialize(&mut r) {
+        Ok(m2) => {
+            vcheck!(r.pos == t.n, "SNAPSHOT.whole_snapshot_consumed");
+            let mut a = 0;
+            while a < 2 {
+                let (scal, same, sides) = books_equal::<N, L>(&m2.order_books[a], &market.order_books[a]);
+                vcheck!(scal, "SNAPSHOT.time_tick_counter_flag_round_trip");
+                vcheck!(same, "SNAPSHOT.order_records_and_queue_keys_round_trip");
+                vcheck!(sides, "SNAPSHOT.side_indexes_of_the_loaded_book_equal_the_originals");
+                a += 1;
+            }
+            vcover!(active(&p0.e[0]) && !active(&p1.e[0]), "cover.assets_differ");
+            core::mem::forget(m2);
+        }
+        Err(_) => {
+            vcheck!(false, "SNAPSHOT.loading_a_saved_snapshot_succeeds");
+        }
+    }
+    core::mem::forget(market);
+}
+
 vharnesses! {
+    #[cfg_attr(kani, kani::unwind(18))]
+    fn c07_serde_market_roundtrip_m1() { market_serde_roundtrip::<2, 2>(1) }
     #[cfg_attr(kani, kani::unwind(4))]
     fn c14_market_create_asset0_off() { step_market_op::<3, 2, 0>(2, 0, GenCfg { ntrades: 1, ..OFF }) }
     #[cfg_attr(kani, kani::unwind(4))]
